@@ -7,6 +7,8 @@ import Mathlib.Data.List.Basic
 import Mathlib.Data.List.Nodup
 import Mathlib.Data.List.Count
 import Mathlib.Tactic.SplitIfs
+import Mathlib.Data.Int.Notation
+import Mathlib.Data.List.InsertIdx
 import CirkitModel.Model.Params
 import CirkitModel.Model.PExpr
 import CirkitModel.Model.Sym
